@@ -6,7 +6,7 @@ UNITS = [options.main_run_unit('C04'), restore.download_chunk_unit('C04', restor
          snapbody.download_snapshot_unit('C04'), snapbody.decrypt_body_unit('C04'), restore.restore_tail_unit('C04')] + c18.units('C04')
 from specs import families as _families
 UNITS = _families.with_families('C04', UNITS)
-BOUNDED = [{'name': 'C04.e2e_corrupt', 'script': 'bounded/c04_corrupt.py', 'timeout': 900, 'bound': 'two small repositories (plain / encrypted, 2 snapshots, 3 files): every stored object x {bit flip at 7 offset classes, truncate to 4 length classes, append, delete (chunks)} + swaps/replays of object pairs; every 3rd case in quick tier; cache absent / warm / truncated for every 4th case; every 7th corruption also through the command line (child interpreter running replicat.__main__.main): exit status 0 only with exactly the original content; a file of ~240 chunks with one chunk flipped or removed at 6 positions of the schedule (first, second, 1/5, middle, last two)'}]
+BOUNDED = [{'name': 'C04.e2e_corrupt', 'script': 'bounded/c04_corrupt.py', 'timeout': 900, 'bound': 'two small repositories (plain / encrypted, 2 snapshots, 3 files): every stored object x {bit flip at 7 offset classes, truncate to 4 length classes, append, delete (chunks)} + swaps/replays of object pairs; every 3rd case in quick tier; cache absent / warm / truncated for every 4th case; every 7th corruption also through the command line (child interpreter running replicat.__main__.main): exit status 0 only with exactly the original content; a file of ~240 chunks with one chunk flipped or removed at 6 positions of the schedule (first, second, 1/5, middle, last two); chunks of 1.5-2 MiB (three hash families, unencrypted) flipped at the last byte, just behind 1 MiB, or with the tail zeroed'}]
 TRUSTED = [
     'vf symbolic executor (/verif/vf): encoding of the Python subset (DESIGN 2.2)',
     'z3 5.1 (API + z3-new CLI), cvc5 1.0.3 (strings)',
